@@ -88,10 +88,7 @@ def worker_rules(chk, prog, w, spawn_body):
         wp = core.must_pass(w, [tgt], recv + rets, through_nodes=task_calls, after_from=False)
         chk.ob("R2.at_least_once", fn, "Message::Function arm -> next recv/exit passes the task call", wp is None,
                "a received task can be dropped without being run", path=wp, where=w.where(s))
-    for blk in task_calls:
-        seen = w.reachable(w.succs(blk), removed_nodes=set(recv))
-        chk.ob("R1.at_most_once", fn, "no second call of the task before the next recv", not any(c in seen for c in calls),
-               "the task (or another closure) is called again in the same iteration", where=w.where(blk))
+    # (at most once is a typing fact: Task = Box<dyn FnOnce()> is moved into its call; see the thorough-tier witness)
     # ---- R3: queue lock not held while the task runs
     if we:
         ecalls = [blk for blk, t in we.calls_to(CALL_ONCE)]
@@ -117,6 +114,21 @@ def worker_rules(chk, prog, w, spawn_body):
                         ok = True
             chk.ob("R4.panic_marker", fn, "unwinding out of the task drops a PanicMarker", ok,
                    "a panicking task does not notify the recovery thread: the pool silently loses a worker", where=we.where(blk))
+    # ---- R2b: no other dequeued-but-not-run task is alive across a task call
+    if we:
+        for blk in [b_ for b_, t in we.calls_to(CALL_ONCE)]:
+            uw = we.term(blk).get("unwind")
+            held = []
+            if uw is not None:
+                for c in we.reachable([uw], unwind=True):
+                    ct = we.term(c)
+                    if ct and ct["k"] == "drop":
+                        ty = ct.get("ty", "")
+                        if core.re.search(r"(VecDeque|Vec|BinaryHeap|LinkedList|\[)[^;]*(pool::Message|dyn std::ops::FnOnce)", ty) or core.re.search(r"std::(vec|collections)::.*<.*pool::Message", ty):
+                            held.append(ty)
+            chk.ob("R2.no_hoarding", fn, "no collection of dequeued tasks is alive while a task runs", not held,
+                   f"a worker holds further dequeued tasks ({held[:1]}) while running one: if that task panics the others are dropped unrun, and they wait "
+                   f"behind it although other workers are idle", where=we.where(blk))
     # ---- R5: exits
     for rblk in recv:
         for label, want in (("Err", True),):
@@ -184,7 +196,12 @@ def recovery_rules(chk, prog, r):
                        f"Thread::new({a0}, {a1}, ..)", where=r.where(blk))
                 if same_id and shared_rx:
                     good_new.append(blk)
-            wp = core.must_pass(r, [tgt], nexts, through_nodes=good_new, after_from=False)
+            rets = core.return_blocks(r)
+            wq = core.must_pass(r, [tgt], rets, through_nodes=nexts, after_from=False)
+            chk.ob("R4.recovery_lives", fn, "a received id never ends the recovery thread (it stops only when its channel closes)", wq is None,
+                   "some received value makes the recovery loop exit while workers can still panic: tasks queued behind a later panic are never run "
+                   "because the dead worker is not replaced", path=wq)
+            wp = core.must_pass(r, [tgt], nexts + rets, through_nodes=good_new, after_from=False)
             chk.ob("R4.restart", fn, "every received id leads to Thread::new before the next receive", wp is None,
                    "a panicked worker may not be replaced: the pool shrinks", path=wp)
             # stored at threads[id]
